@@ -28,8 +28,9 @@ import (
 const replayT = "service.ReplayCache"
 
 type histModel struct {
-	gens []string // map-typed fields
-	capF string   // the capacity field
+	gens    []string // map-typed fields
+	capF    string   // the capacity field
+	capBusy map[*ssa.Parameter]bool
 }
 
 func findHist(c *Ctx) *histModel {
@@ -124,7 +125,36 @@ func (m *histModel) capLike(p *eng.Prog, v ssa.Value, f *ssa.Function) bool {
 				}
 			}
 			if !stored {
-				return false
+				// a helper that is handed the capacity: every call site passes a capacity-like value
+				fn := x.Parent()
+				idx := -1
+				for i, q := range fn.Params {
+					if q == x {
+						idx = i
+					}
+				}
+				sites := p.CallSitesOf(fn)
+				if idx < 0 || len(sites) == 0 || m.capBusy[x] {
+					return false
+				}
+				if m.capBusy == nil {
+					m.capBusy = map[*ssa.Parameter]bool{}
+				}
+				m.capBusy[x] = true
+				okAll := true
+				for _, site := range sites {
+					args := site.Ins.(ssa.CallInstruction).Common().Args
+					if p.IsTestSupport(site.Fn) {
+						continue
+					}
+					if idx >= len(args) || !m.capLike(p, args[idx], site.Fn) {
+						okAll = false
+					}
+				}
+				delete(m.capBusy, x)
+				if !okAll {
+					return false
+				}
 			}
 		default:
 			return false
@@ -392,6 +422,65 @@ func ruleHistory(c *Ctx) {
 			dst, _ := isGenField(fa)
 			offHere := guarded(f, st.Block(), func(e *edges) eng.EdgeSet { return e.off }, 0)
 			key := short(f) + ":" + dst
+			// a transition helper in functional style: `c.active, c.archive = nextGeneration(c.active, c.archive, c.capacity)`.
+			// Each return of the helper is judged as the set of simultaneous stores it stands for.
+			if ex, isEx := p.Resolve(st.Val).(*ssa.Extract); isEx {
+				if tc, isCall := ex.Tuple.(*ssa.Call); isCall {
+					if h := tc.Call.StaticCallee(); h != nil && p.InRepo(h) && len(h.Blocks) > 0 {
+						// which result goes to which generation at this call
+						dstOf := map[int]string{}
+						for _, st2 := range stores {
+							if ex2, ok := p.Resolve(st2.Val).(*ssa.Extract); ok && ex2.Tuple == ssa.Value(tc) {
+								g2, _ := isGenField(st2.Addr.(*ssa.FieldAddr))
+								dstOf[ex2.Index] = g2
+							}
+						}
+						ctx := m.bindCtx(p, tc, h, nil)
+						eh := edgesOf(h)
+						okAll, why := true, ""
+						for ri, r := range eng.Returns(h) {
+							if ex.Index >= len(r.Results) {
+								okAll, why = false, "result not found"
+								continue
+							}
+							v := r.Results[ex.Index]
+							if src, ok := m.genOfCtx(p, v, ctx); ok {
+								if src == dst {
+									continue
+								}
+								if !(len(eh.full[src]) > 0 && eng.Cut(h, r.Block(), eh.full[src])) && !offHere {
+									okAll, why = false, fmt.Sprintf("return #%d of %s hands %q over to %q on a path on which %q was not found full", ri, short(h), src, dst, src)
+								}
+								continue
+							}
+							fresh := true
+							for _, o := range p.Origins(v, eng.OriginOpts{ThroughConvert: true, Interproc: true}) {
+								if _, isMk := o.(*ssa.MakeMap); !isMk {
+									fresh = false
+								}
+							}
+							if !fresh {
+								okAll, why = false, fmt.Sprintf("return #%d of %s replaces %q by something that is neither a generation nor an empty map", ri, short(h), dst)
+								continue
+							}
+							// emptied: the same return moves dst's content to another generation
+							moved := false
+							for j, g2 := range dstOf {
+								if j < len(r.Results) && g2 != dst {
+									if src, ok := m.genOfCtx(p, r.Results[j], ctx); ok && src == dst {
+										moved = true
+									}
+								}
+							}
+							if !moved && !offHere {
+								okAll, why = false, fmt.Sprintf("return #%d of %s empties %q without moving its content to another generation", ri, short(h), dst)
+							}
+						}
+						c.CheckAt("HISTORY", key+":transition-helper-only-rotates", st, okAll, why)
+						continue
+					}
+				}
+			}
 			if src, ok := m.genOf(p, st.Val); ok {
 				if src == dst {
 					c.CheckAt("HISTORY", key+":self-store", st, true, "")
